@@ -256,9 +256,9 @@ class RelayMode(vlib.Mode):
                 else:
                     t = rng.choice(TOPICS[:3]); ref = rng.choice(["-", "x", f"c{ncodes + rng.randrange(3)}"])
                 meta = ""
-                if rng.random() < 0.25:     # client-controlled metadata of unusual size/content (reported verbatim by /status and the stats topic)
+                if rng.random() < 0.35:     # client-controlled metadata of unusual size/content (reported verbatim by /status and the stats topic)
                     # (no leading/trailing blanks: HTTP itself strips optional whitespace around header values — not the relay's doing)
-                    ua = rng.choice(["Mozilla/5.0 (X11; Linux x86_64) " + "AppleWebKit/537.36 " * rng.choice([1, 12, 40]), "x" * rng.choice([255, 256, 257, 1000, 4000]),
+                    ua = rng.choice(["Mozilla/5.0 (X11; Linux x86_64) " + "AppleWebKit/537.36 " * rng.choice([1, 12, 40]), "x" * rng.choice([255, 256, 257, 1000, 4000]), "y" * rng.choice([257, 300, 2048]),
                                      "ua with \"quotes\" and \\ backslash", "tab\there", "ü-agent/1.0", "inner  double  blanks", "a"]).strip()
                     meta = " " + hx(ua)
                     if rng.random() < 0.5:
